@@ -21,6 +21,7 @@ mod scenario;
 mod selfcheck;
 mod simdb;
 mod simsched;
+mod templates;
 mod workload;
 
 use checks::Tier;
